@@ -89,6 +89,9 @@ def run(ctx) -> Result:
              cbs={"0": [[["stop"], ["join"], ["stop"]]]}),
         dict(nw=2, nh=2, kind="scripted", scripts={"0": [0, 1], "1": [2]}, threads=[[["schedule", 0, 0], ["schedule", 1, 1], ["start"]]],
              cbs={"0": [[["unschedule", 0], ["schedule", 1, 0], ["stop"]]], "1": [[["unschedule_all"], ["stop"]]]}),
+        # two racing stop() calls + the final one: both may read _last_item before either puts its marker (queue [M, M]);
+        # getting the first marker then resets _last_item (identity test) although a marker is still queued
+        dict(nw=1, nh=1, kind="scripted", scripts={"0": []}, threads=[[["start"], ["pause"], ["stop"]], [["pause"], ["stop"]]], cbs={}),
     ]
     op.campaign(ctx, res, "C06", fixed, judge, n_random=25 if not ctx.thorough else 0,
                 explore_runs=0 if not ctx.thorough else 1500, tag="fixed")
